@@ -535,8 +535,11 @@ def _compute_form_ir(
 
     ir["original_coefficient_positions"] = form_data.original_coefficient_positions
 
+    # Hashes of the ir["rank"] argument elements (one for a diagonalised
+    # bilinear form), followed by the coefficient elements
     ir["finite_element_hashes"] = [
-        e.basix_hash() for e in form_data.argument_elements + form_data.coefficient_elements
+        e.basix_hash()
+        for e in form_data.argument_elements[: ir["rank"]] + form_data.coefficient_elements
     ]
 
     form_name = object_names.get(id(form_data.original_form), form_id)
